@@ -74,9 +74,14 @@ def object_events(entry, enc, tid0, rng, quick, run):
     # rejected, but a message that comes back different is logged as one more Invert event
     from .core import noncontiguous, transposed_view
     subs = list(range(len(msgs))) if len(msgs) <= 16 else [0, 1, 2, len(msgs) // 2, len(msgs) - 1] + rng.sample(range(len(msgs)), 6)
-    for kind, Mf in (("requires_grad", M[subs].clone().requires_grad_(True)), ("transposed view", transposed_view(M[subs])), ("strided view", noncontiguous(M[subs]))):
+    forms = [("requires_grad", M[subs].clone().requires_grad_(True), None), ("transposed view", transposed_view(M[subs]), None), ("strided view", noncontiguous(M[subs]), None)]
+    # ... and the codewords handed to the inverse as other dtypes (a method may reject a dtype; a different message counts)
+    forms += [("codeword as %s" % str(dt).replace("torch.", ""), M[subs], dt) for dt in (torch.float64, torch.int64, torch.uint8, torch.int8, torch.bool, torch.float16, torch.bfloat16)]
+    for kind, Mf, cdt in forms:
         try:
             Cf = enc(Mf)
+            if cdt is not None:
+                Cf = Cf.detach().to(cdt)
         except Exception:
             continue
         for meth in METHODS:
@@ -85,7 +90,7 @@ def object_events(entry, enc, tid0, rng, quick, run):
                 continue
             try:
                 res = f(Cf.detach() if kind != "requires_grad" else Cf)
-                outf = _first(res).detach()
+                outf = _first(res).detach().to(torch.float32)
                 synf = res[1].detach() if isinstance(res, tuple) and len(res) > 1 and torch.is_tensor(res[1]) else None
                 if outf.shape != (len(subs), k):
                     continue
